@@ -13,9 +13,10 @@ CONSTANTS
   WithErrors = TRUE
   WithIdle = FALSE
   WithSleep = FALSE
-  KeepLog = FALSE
+  KeepLog = TRUE
 INVARIANT TypeOK
 INVARIANT LockOK
 INVARIANT NoUnexplainedWitness
 INVARIANT TerminalOK
+INVARIANT EmitBehaviour
 CHECK_DEADLOCK FALSE
